@@ -602,8 +602,60 @@ AREAS = [
              strings=dict(string='bytes', char='byte', lit='%d%%N'),
              lists={'s': ('s', 'byte')}),
     ]),
+    # ---------------------------------------------------------------------------------------- round 2: C12/C11 RelayMessageOne, one target endpoint
+    dict(area='relay', requires=['Icv.Src.XlPrelude', 'Icv.Replay.RlModel'], items=[
+        dict(glue='relay_events', props=['C12', 'C11'], deps=[], doc='effects of one iteration of the endpoint loop of RelayMessageOne',
+             text='Inductive xrl_ev := XrlSkip | XrlSend.\n'),
+        dict(name='relay_endpoint_iter', func='ApiListener::RelayMessageOne', file='lib/remote/apilistener.cpp', props=['C12', 'C11'],
+             region=(r'if\s*\(\s*targetEndpoint\s*==\s*localEndpoint\s*\)\s*continue;', r'\}\s*if\s*\(\s*log_needed\s*&&\s*!log_done\s*\)'),
+             region_exit=True, outputs=['relayed', 'log_needed', 'log_done'],
+             inputs=[('is_self', 'bool'), ('connected', 'bool'), ('is_local_zone', 'bool'), ('relayed0', 'bool'), ('log_needed0', 'bool'), ('log_done0', 'bool'),
+                     ('has_origin', 'bool'), ('has_from_client', 'bool'), ('from_this_endpoint', 'bool'), ('has_from_zone', 'bool'), ('from_this_zone', 'bool'),
+                     ('we_are_master', 'bool'), ('target_is_master', 'bool')],
+             ret='void', rcoq='bool * bool * bool * bool * list xrl_ev', dummy='(false, false, false, false, nil)',
+             locals={'relayed': Bb('relayed0'), 'log_needed': Bb('log_needed0'), 'log_done': Bb('log_done0')},
+             aliases={'targetEndpoint': 'TE', 'localEndpoint': 'LE', 'currentTargetZone': 'CZ', 'localZone': 'LZ', 'currentZoneMaster': 'ZM',
+                      'skippedEndpoints': 'skippedEndpoints'},
+             state=[('$events', '(@nil xrl_ev)', 'list xrl_ev')],
+             emits={'skippedEndpoints.push_back': ('$events', 'XrlSkip', [None]), 'SyncSendMessage': ('$events', 'XrlSend', [None, None])},
+             bind={'TE==LE': Bb('is_self'), 'TE->GetConnected()': Bb('connected'), 'CZ==LZ': Bb('is_local_zone'), 'CZ!=LZ': ('negb is_local_zone', 'bool'),
+                   'origin': ('has_origin', 'ptr'), 'origin->FromClient': ('has_from_client', 'ptr'),
+                   'TE==origin->FromClient->GetEndpoint()': Bb('from_this_endpoint'), 'origin->FromZone': ('has_from_zone', 'ptr'),
+                   'CZ==origin->FromZone': Bb('from_this_zone'), 'ZM==LE': Bb('we_are_master'), 'TE!=ZM': ('negb target_is_master', 'bool')}),
+    ]),
+    # ---------------------------------------------------------------------------------------- round 2: C20 NetString header scanning (loop bodies)
+    dict(area='ns', requires=['Icv.Src.XlPrelude'], items=[
+        # body of `for (i = 0; i < Size; i++)`: looking for the colon; left early = break (header found) or exception (negative code)
+        dict(name='netstring_find_colon_iter', func='NetString::ReadStringFromStream', file='lib/base/netstring.cpp', props=['C20'], nparams=5,
+             region=(r"if\s*\(\s*context\.Buffer\[i\]\s*==\s*':'\s*\)", r'\}\s*if\s*\(\s*header_length\s*==\s*0\s*\)\s*\{\s*context\.MustRead'),
+             region_exit=True, outputs=['header_length'],
+             inputs=[('b', 'Z'), ('i', 'Z'), ('hl0', 'Z')], ret='void', rcoq='bool * Z', dummy='(false, 0)',
+             strings=dict(string='zbytes', char='Z', lit='%d'),
+             abort={r'no length specifier': '(true, -1)', r'missing :': '(true, -2)'}, abort_stmts=[r'^BOOST_THROW_EXCEPTION\('],
+             locals={'i': ('i', 'u64'), 'header_length': ('hl0', 'u64')},
+             bind={'context.Buffer[i]': Zb('b')}),
+        # body of the length loop: at most 9 digits, len = len * 10 + digit
+        dict(name='netstring_len_iter', func='NetString::ReadStringFromStream', file='lib/base/netstring.cpp', props=['C20'], nparams=5,
+             region=(r'if\s*\(\s*i\s*>=\s*9\s*\)', r'\}\s*size_t\s+data_length'),
+             region_exit=True, outputs=['len'],
+             inputs=[('b', 'Z'), ('i', 'Z'), ('len0', 'Z')], ret='void', rcoq='bool * Z', dummy='(false, 0)',
+             strings=dict(string='zbytes', char='Z', lit='%d'),
+             abort={r'must not exceed 9': '(true, -4)'}, abort_stmts=[r'^BOOST_THROW_EXCEPTION\('],
+             locals={'i': ('i', 'u64'), 'len': ('len0', 'u64')},
+             bind={'context.Buffer[i]': Zb('b')}),
+    ]),
     # ---------------------------------------------------------------------------------------- round 2: C04 scheduler decision
-    dict(area='sched', requires=['Icv.Src.XlPrelude', 'Icv.Facts.Facts_enums'], items=[
+    dict(area='sched', requires=['Coq.QArith.QArith', 'Icv.Src.XlPrelude', 'Icv.Facts.Facts_enums', 'Icv.Sched.SchNext'], items=[
+        # Checkable::UpdateNextCheck over exact rationals (the model's reading of double; fmod / std::min are the model's sch_qfmod / sch_qmin)
+        dict(name='checkable_update_next_check', func='Checkable::UpdateNextCheck', file='lib/icinga/checkable-check.cpp', props=['C04'], real=True,
+             inputs=[('soft', 'bool'), ('has_cr', 'bool'), ('check_interval', 'Q'), ('retry_interval', 'Q'), ('now', 'Q'), ('offset', 'Z')],
+             ret='void', dummy='nil',
+             state=[('$out', '(@nil Q)', 'list Q')],
+             emits={'SetNextCheck': ('$out', '{0}', ['Q', None, None])},
+             fns={'fmod': ('sch_qfmod', ['Q', 'Q'], 'Q'), 'std::min': ('sch_qmin', ['Q', 'Q'], 'Q')},
+             bind={'GetStateType()==StateTypeSoft': Bb('soft'), 'GetLastCheckResult()!=nullptr': Bb('has_cr'),
+                   'GetRetryInterval()': ('retry_interval', 'Q'), 'GetCheckInterval()': ('check_interval', 'Q'), 'Utility::GetTime()': ('now', 'Q'),
+                   'GetSchedulingOffset()': Zb('offset'), 'GetLastCheck()': ('now', 'Q')}),
         # CheckerComponent::CheckThreadProc: is the due checkable checked ("check"), and is a next-check update announced when it is not?
         dict(name='checkthread_wants_check', func='CheckerComponent::CheckThreadProc', file='lib/checker/checkercomponent.cpp', props=['C04'],
              region=(r'bool\s+check\s*=\s*true\s*;', r'if\s*\(\s*!check\s*\)'), outputs=['check', 'notifyNextCheck'],
